@@ -1283,6 +1283,9 @@ class Interp:
             m = self.models.get(full)
             if m:
                 return m(self, args, info)
+            if len(segs) >= 2 and segs[-2] in prog.enums and segs[-1] in prog.enums[segs[-2]]:
+                # tuple-variant constructor used as a function value (e.g. `.map(Some)`)
+                return Enum(segs[-2], segs[-1], prog.variant_index(segs[-2], segs[-1]), list(args))
             raise Unsupported('no model for callee ' + info['text'])
         # qualified
         st, tr = info['self_ty'], info['trait']
@@ -1306,12 +1309,35 @@ class Interp:
                     return self.run_fn(self._pick_trait(cands, info, args), [newfirst] + list(args[1:]))
             cands = prog.traitm.get((tr, rt, method))
             if cands:
-                return self.run_fn(self._pick_trait(cands, info, args), args)
+                f = self._pick_trait(cands, info, args)
+                return self.run_fn(f, [self._adapt_receiver(f, args[0])] + list(args[1:]))
         for key in ('<%s as %s>::%s' % (st, tr, method), '%s::%s' % (tr, method)):
             m = self.models.get(key)
             if m:
                 return m(self, args, info)
         raise Unsupported('no model for callee ' + info['text'])
+
+    def _adapt_receiver(self, f, a):
+        """blanket impls (`impl Write for &mut W`, Box<W>) forward to W: hand the callee a single-level reference"""
+        if not f.args:
+            return a
+        pty = f.args[0][1].strip()
+        if not isinstance(a, Ref):
+            return a
+        cur = a
+        n = 0
+        while n < 8:
+            t = self.read(cur.root, cur.path)
+            if isinstance(t, Ref):
+                cur = t
+            elif isinstance(t, BoxObj):
+                cur = Ref(t.cell, (), True)
+            else:
+                break
+            n += 1
+        if pty.startswith('&'):
+            return cur
+        return self.read(cur.root, cur.path)
 
     def _pick(self, cands, info):
         if len(cands) == 1:
